@@ -2,6 +2,7 @@ package checks
 
 import (
 	"context"
+	"encoding/json"
 	"fmt"
 	"net/http"
 	"os"
@@ -163,6 +164,63 @@ func c17RacePass(tier mc.Tier, cov map[string]any) []*mc.Violation {
 	}
 	if races == 0 && mism == 0 && err != nil {
 		cov["race_pass_error"] = tail2(text, 2000)
+	}
+	return append(vs, c17ShimPass(tier, cov)...)
+}
+
+// c17ShimPass runs the shimmed twin (built by run.sh with -overlay) as a sub-run and folds its result into C17's.
+func c17ShimPass(tier mc.Tier, cov map[string]any) []*mc.Violation {
+	bin := os.Getenv("VERIF_SHIM_BIN")
+	if bin == "" {
+		cov["shimmed"] = map[string]any{"ran": false, "why": "shim binary not built (import of sync not found in the two files, or build failed): un-shimmed mode only"}
+		return nil
+	}
+	dir, err := os.MkdirTemp(filepath.Join(mc.Root(), ".work"), "shim-ev-")
+	if err != nil {
+		cov["shimmed"] = map[string]any{"ran": false, "why": err.Error()}
+		return nil
+	}
+	defer os.RemoveAll(dir)
+	cmd := exec.Command(bin, "-prop", "C17S", "-tier", tier.String())
+	cmd.Env = append(os.Environ(), "VERIF_EVIDENCE_DIR="+dir)
+	out, rerr := cmd.CombinedOutput()
+	text := string(out)
+	info := map[string]any{"ran": true, "exit_error": fmt.Sprint(rerr), "summary": lastLine(text),
+		"what": "sync.WaitGroup in revocation.go / ocsp.go replaced through go build -overlay: after wg.Done() and after wg.Wait() are scheduling points"}
+	if b, e := os.ReadFile(filepath.Join(dir, "C17S.json")); e == nil {
+		var ev struct {
+			Coverage map[string]any `json:"coverage"`
+		}
+		if json.Unmarshal(b, &ev) == nil {
+			for _, k := range []string{"evaluations", "states", "transitions", "exhaustive", "bound_completed", "scenarios"} {
+				info[k] = ev.Coverage[k]
+			}
+		}
+	}
+	cov["shimmed"] = info
+	var vs []*mc.Violation
+	for _, l := range strings.Split(text, "\n") {
+		if !strings.HasPrefix(l, "VIOLATION property=C17S replay=") {
+			continue
+		}
+		path := strings.TrimPrefix(l, "VIOLATION property=C17S replay=")
+		b, e := os.ReadFile(strings.TrimSpace(path))
+		if e != nil {
+			continue
+		}
+		var rf struct {
+			Violation mc.Violation `json:"violation"`
+		}
+		if json.Unmarshal(b, &rf) != nil {
+			continue
+		}
+		v := rf.Violation
+		v.Property = "C17"
+		v.Signature = "C17 shimmed " + v.Signature
+		vs = append(vs, &v)
+	}
+	if ee, ok := rerr.(*exec.ExitError); ok && ee.ExitCode() == 2 && len(vs) == 0 {
+		info["harness_error"] = tail2(text, 1500)
 	}
 	return vs
 }
